@@ -16,7 +16,7 @@
 EXTENDS Naturals, FiniteSets, TLC
 CONSTANT MaxFaults
 
-Pipes   == {"plain", "semgrep", "sast"}
+Pipes   == {"plain", "semgrep", "sast", "sast2"}
 Static  == {"badutf8", "nul", "syntax", "empty"}
 Dynamic == {"vanish", "raise", "raiseAtNodeEarly", "raiseAtNodeMid", "raiseAtNodeLate"}   \* the j-th visited node: 2nd, 12th, 22nd
 NF == 3
@@ -35,7 +35,7 @@ Placements(maxFaults) == {[pipe |-> p, faults |-> F] : p \in Pipes, F \in FaultS
 
 \* does a codemod of this pipeline select a file whose bytes are bad?  A rule-detected codemod only selects files in
 \* which its rule reported something, and the rule engine may or may not report in a file it cannot parse: don't care.
-SelectsBadFile(pipe) == pipe \in {"plain", "sast"}
+SelectsBadFile(pipe) == pipe \in {"plain", "sast", "sast2"}
 
 MustFail(p) ==
   UNION {
